@@ -138,3 +138,66 @@ def check_equations(text, H, model_exe):
                     dis.append(bad)
                     break
     return {"pairs": npairs, "equations_evaluated": neq, "horizons": len(hs)}, dis
+
+# --------------------------------------------------------------------------- head formulas (C04)
+
+def head_probe(text, dmax):
+    """
+    Ground step 0 of the program and, for every `&__tel_head` atom, build the real head formula with the
+    real `create_formula`, shift it by d = 0..dmax with the real `shift_formula` and unfold it with the real
+    `unfold_formula`.  Returns a list of (term dump, rep, [(shifted rep, [[clause literal reps]])]).
+    """
+    import clingo, telingo.transformers as tf, telingo.theory.head as hd
+    from clingo.ast import ProgramBuilder
+    prg = clingo.Control(["0"], message_limit=0, logger=lambda c, m: None)
+    with ProgramBuilder(prg) as bld:
+        fs, parts = tf.transform([text], bld.add)
+    prg.ground([("initial", [clingo.Number(0), clingo.Number(0)]), ("always", [clingo.Number(0), clingo.Number(0)])])
+    out = []
+    for a in prg.theory_atoms:
+        if a.term.name != "__tel_head" or len(a.elements) != 1 or len(a.elements[0].terms) != 1:
+            continue
+        t = a.elements[0].terms[0]
+        try:
+            f = hd.create_formula(t, lambda x: x)
+        except BaseException as e:  # noqa
+            out.append((tl.dump_tterm(t), "ERR " + tl.classify_exc(e), []))
+            continue
+        per = []
+        for d in range(dmax + 1):
+            sf = hd.shift_formula(f, d)
+            cl = [[str(x) for x in c] for c in hd.unfold_formula(sf)]
+            per.append((str(sf), cl))
+        out.append((tl.dump_tterm(t), str(f), per))
+    return out
+
+def check_head(texts, dmax, model_exe):
+    """L3 for head formulas: representation, shifting and unfolding agree with the model"""
+    dis = []
+    n = 0
+    probes = []
+    for text in texts:
+        try:
+            for p in head_probe(text, dmax):
+                probes.append((text, p))
+        except BaseException as e:  # noqa
+            if isinstance(e, KeyboardInterrupt):
+                raise
+            dis.append({"layer": "L3h", "text": text, "what": "exception while probing: {}: {}".format(tl.classify_exc(e), str(e)[:200])})
+    outs = model_exe.batch([tl.sexp(("head", p[0], dmax)) for _, p in probes])
+    for (text, (term, rep, per)), out in zip(probes, outs):
+        n += 1
+        if out.startswith("ERR"):
+            if not rep.startswith("ERR") or out.split()[1] != rep.split()[1]:
+                dis.append({"layer": "L3h", "text": text, "what": "error class differs", "model": out, "impl": rep})
+            continue
+        m = tl.parse_sexp(out)
+        want = (m[0], [(x[0], [list(c) for c in x[1]]) for x in m[1:]])
+        got = (rep, [(r, c) for r, c in per])
+        if want != got:
+            k = 0
+            while k < len(per) and k < len(want[1]) and want[1][k] == got[1][k]:
+                k += 1
+            dis.append({"layer": "L3h", "text": text, "what": "head formula differs (rep / shift / unfold)", "first_difference_at_shift": k,
+                        "model": [want[0]] + list(want[1][k:k + 1]), "impl": [got[0]] + list(got[1][k:k + 1])})
+    return {"head_formulas": n, "shifts_per_formula": dmax + 1}, dis
